@@ -71,6 +71,12 @@ CHECKS = {
         text="For every flow of every generated program, every shipped .co file and every program embedded in tests/v2_x, TLC explores every path a head can take through the compiled primitive elements exactly as `slide` moves it and reports unexpanded composites, missing / out-of-range labels, merges without fork, failure-handler underflow, scopes opened twice or left open. Exhaustive per flow.",
         note="trusted: syntactic exporter (harness/colang2.export_element); non-literal goto conditions are two-way branches (over-approximation); the compiler itself is not modelled - its output is the model",
         design_ref="6/C12"),
+    "C15": dict(
+        category="model_checking", engine="SharedInstance",
+        technique="PlusCal/TLA+ spec of N requests on one LLMRails (LLMParams enter/call/exit sections with yields at the awaits, history cache with the real lossy key function) model-checked with TLC; TLC-emitted turn orders + an exhaustive virtual-time schedule grid replayed on one real LLMRails; recorded traces validated and judged by TLC (Trace_Shared) against alone-run oracles",
+        text="2 (thorough 3) concurrent requests over all interleavings at await points and all sequential interleavings of the turns of conversation pairs/triples over an adversarial alphabet (texts containing the key separator, role-mimicking histories); each request's replies, prompts and call-time temperature must equal the conversation replayed alone on a fresh instance, and the LLM must hold the configured parameters whenever no request is in flight. TLC finds the design-level counterexamples (LLMParams overlap) which are known findings; the cache-key collision is fixed.",
+        note="trusted: harness/vloop.py, ScriptedLLM (pure function of the prompt), harness-side wrappers on LLMParams.__enter__/__exit__ and _get_events_for_messages; temperature judged at call start; asyncio concurrency on one loop only",
+        design_ref="6/C15"),
     "C16": dict(
         category="model_checking", engine="RailsPipeline",
         technique="RailsPipeline model with option gating model-checked by TLC; every options script replayed into LLMRails.generate(options=...); reply, LLM-call count and log.activated_rails judged by TLC predicates",
